@@ -42,20 +42,31 @@ def child_env(hashseed: int):
         "PYTHONDONTWRITEBYTECODE": "1", GUARD: "1",
     })
     env.pop("VERIF_REEXEC", None)
-    if REPO != "/repo":  # scratch copy of the repository (sensitivity runs): shadow the editable install
-        env["PYTHONPATH"] = REPO + (os.pathsep + env["PYTHONPATH"] if env.get("PYTHONPATH") else "")
-    env["VERIF_EXPECT_REPO"] = os.path.realpath(REPO)
+    if SRC_COPY:
+        env["PYTHONPATH"] = SRC_COPY + (os.pathsep + env["PYTHONPATH"] if env.get("PYTHONPATH") else "")
+        env["VERIF_EXPECT_REPO"] = os.path.realpath(SRC_COPY)
+    else:
+        env["VERIF_EXPECT_REPO"] = os.path.realpath(REPO)
     return env
 
 
-def rebuild():
-    """checks must rebuild from /repo's working tree: force-recompile with checked-hash pycs (DESIGN 3.2)"""
+SRC_COPY = None
+
+
+def rebuild(work: str):
+    """checks must rebuild from /repo's working tree (DESIGN 3.2): every check copies the current sources of the package
+    into its own work directory, byte-compiles the copy (a source that does not compile is reported at once) and puts
+    the copy first on its workers' PYTHONPATH - so no __pycache__ entry lying around in /repo can be imported instead
+    of the current source, and nothing is written into /repo."""
+    global SRC_COPY
     t0 = time.monotonic()
-    r = subprocess.run(
-        [PY, "-m", "compileall", "-q", "-f", "--invalidation-mode", "checked-hash", os.path.join(REPO, "data_algebra")],
-        stdout=subprocess.PIPE, stderr=subprocess.STDOUT, text=True, timeout=300)
+    SRC_COPY = os.path.join(work, "src")
+    shutil.copytree(os.path.join(REPO, "data_algebra"), os.path.join(SRC_COPY, "data_algebra"),
+                    ignore=shutil.ignore_patterns("__pycache__", "*.pyc"))
+    r = subprocess.run([PY, "-m", "compileall", "-q", "-f", os.path.join(SRC_COPY, "data_algebra")],
+                       stdout=subprocess.PIPE, stderr=subprocess.STDOUT, text=True, timeout=300)
     if r.returncode != 0:
-        log("HARNESS-ERROR: /repo/data_algebra does not compile:\n" + r.stdout[-2000:])
+        log("HARNESS-ERROR: " + REPO + "/data_algebra does not compile:\n" + r.stdout[-2000:])
         sys.exit(2)
     return time.monotonic() - t0
 
@@ -93,9 +104,9 @@ def main() -> int:
         tier["runs"] = a.runs
     if a.max_report is not None:
         tier["max_report"] = a.max_report
-    compile_s = rebuild()
     work = os.path.join(HERE, ".work", f"{prop}-{a.tier}-{os.getpid()}")
     os.makedirs(work, exist_ok=True)
+    compile_s = rebuild(work)
     rc = 2
     try:
         rc = _main(a, prop, seed, mod, tier, work, t_start, compile_s)
